@@ -57,6 +57,8 @@ def run(ctx: Ctx):
     )
     res.rule("PERM-SPACE", "index-space typing of the matching permutation: congruence_coefficient returns, for each column of one argument, the matching column of the other (direction read from its source: rows / columns of the cross-product, order of linear_sum_assignment's result, dict(zip(...)) keys, enumeration); cp_permute_factors indexes the columns of the tensor to permute with a permutation whose values are column numbers of that same tensor and whose positions are the reference's components", floor=3)
     ctx.guarded(perm_space, ctx)
+    res.rule("AXIS-FORWARD", "a metric that takes `axis` hands it to every metric of the same module it is built from (covariance, variance, standard deviation, MSE ...): a building block left at its default reduces over the whole array, so the slice-wise result is normalised by a global quantity", floor=3)
+    ctx.guarded(axis_forward, ctx)
     res.rule("CONJ-LIVE", "in the similarity metrics a conjugation is applied to an operand of the cross-product, never to the product directly under abs / norm (where it has no effect)", floor=1)
     ctx.guarded(conj_live, ctx)
     ctx.guarded(
@@ -67,6 +69,41 @@ def run(ctx: Ctx):
         "A, B = units of the first / second argument",
         "the metric then changes when one factor set (or data array) is rescaled, so it is neither invariant to the scaling indeterminacy nor equal to its definition",
     )
+
+
+# ---------------------------------------------------------------------------------
+# AXIS-FORWARD: the reduction axis reaches every building block
+# ---------------------------------------------------------------------------------
+def axis_forward(ctx: Ctx):
+    import ast
+
+    from ..common import src
+    from ..model import AnalysisError, bind_call, own_scope_nodes
+
+    repo, res = ctx.repo, ctx.res
+    n = 0
+    for mod in repo.modules.values():
+        if not mod.name.startswith("tensorly.metrics."):
+            continue
+        for f in mod.functions.values():
+            if f.cls is not None or "axis" not in f.all_params:
+                continue
+            for c in own_scope_nodes(f.node):
+                if not isinstance(c, ast.Call):
+                    continue
+                ct = repo.resolve_call(f, mod, c)
+                if ct.kind != "repo" or len(ct.funcs) != 1 or "axis" not in ct.funcs[0].all_params or not ct.funcs[0].module.name.startswith("tensorly.metrics."):
+                    continue
+                g = ct.funcs[0]
+                b = bind_call(c, g, ct.bound)
+                a = b.params.get("axis") if b.ok else None
+                ok = a is not None and any(isinstance(x, ast.Name) and x.id == "axis" for x in ast.walk(a))
+                n += 1
+                res.instance("AXIS-FORWARD", f"{f.qname}: {src(c)[:60]}", sample={"axis_argument": src(a) if a is not None else None, "ok": ok})
+                if not ok:
+                    ctx.finding("AXIS-FORWARD", f, c, f"{f.name}(…, axis) calls `{src(c)[:70]}` without handing on its `axis` ({'got ' + src(a) if a is not None else 'left at the default None'}): that building block reduces over the whole array, so for axis-wise use the result mixes slice-wise and global statistics (and is no longer the metric's definition per slice)", construct=f"{f.name}: {g.name} without axis")
+    if n == 0:
+        raise AnalysisError("AXIS-FORWARD: no metric with an `axis` parameter calls another metric any more; cannot decide")
 
 
 # ---------------------------------------------------------------------------------
